@@ -671,7 +671,7 @@ pub fn generate(args: &Args, out: &mut Out, idx: &mut u64, prefix: &str, quick: 
         }
     }
     if salt == 0 && args.count == 0 {
-        let depth = if args.thorough { 4 } else { 3 };
+        let depth = if args.thorough { 5 } else { 4 };
         for block in [true, false] {
             exhaustive(out, idx, prefix, Cfg { ms: 1, mb: 1, block, split: 8 }, depth);
         }
